@@ -12,41 +12,47 @@ Definition tstr : ty := TBasic KString.
 Definition ints : ty := TSlice tint.
 Definition myint : ty := TNamed 0 (KInt W0).
 
+(* the code with exactly one repair missing *)
+Definition no_numout_check : repairs := mkRep false true true.
+Definition no_variadic_check : repairs := mkRep true true false.
+Definition shard_by_kind : repairs := mkRep true false true.
+
 Ltac no_schema iff :=
   let r := fresh "r" in let H := fresh "H" in
   intros (r & H); apply iff in H; vm_compute in H; discriminate.
 
-(* ---- Sig readerfunc-numout-not-checked (slice.go:329) ---- *)
+(* ---- REPAIRED in /repo; formerly Sig readerfunc-numout-not-checked (slice.go:329).
+        Witnesses against the code without that repair. ---- *)
 Definition reader_0out : ty := TFunc [tint; tint; ints] None [].
 Definition reader_1out : ty := TFunc [tint; tint; ints] None [tint].
 Definition reader_3out : ty := TFunc [tint; tint; ints] None [tint; TError; tint].
 
 Theorem readerfunc_numout_refuted :
-  (exists f, (~ exists r, readerfunc_schema 1 f r) /\ readerfunc_check_gen false 1 f = GoPanic) /\
-  (exists f out, (~ exists r, readerfunc_schema 1 f r) /\ readerfunc_check_gen false 1 f = Accept out).
+  (exists f, (~ exists r, readerfunc_schema 1 f r) /\ readerfunc_check_gen no_numout_check 1 f = GoPanic) /\
+  (exists f out, (~ exists r, readerfunc_schema 1 f r) /\ readerfunc_check_gen no_numout_check 1 f = Accept out).
 Proof.
   split.
   - exists reader_1out. split; [no_schema readerfunc_schema_b_iff | vm_compute; reflexivity].
   - exists reader_3out, (mkS [tint] 1 1). split; [no_schema readerfunc_schema_b_iff | vm_compute; reflexivity].
 Qed.
 
-Theorem readerfunc_numout_zero_results_panics : readerfunc_check_gen false 1 reader_0out = GoPanic.
+Theorem readerfunc_numout_zero_results_panics : readerfunc_check_gen no_numout_check 1 reader_0out = GoPanic.
 Proof. vm_compute. reflexivity. Qed.
 
 (* the same three signatures are rejected by a typecheck error once NumOut() is checked *)
 Theorem readerfunc_fix_rejects :
-  readerfunc_check_gen true 1 reader_0out = Reject /\
-  readerfunc_check_gen true 1 reader_1out = Reject /\
-  readerfunc_check_gen true 1 reader_3out = Reject.
+  readerfunc_check 1 reader_0out = Reject /\
+  readerfunc_check 1 reader_1out = Reject /\
+  readerfunc_check 1 reader_3out = Reject.
 Proof. vm_compute. auto. Qed.
 
-(* ---- Sig exact-form-accepts-variadic: Fold, Reduce, Repartition, WriterFunc and
+(* ---- REPAIRED in /repo (74b12a5); formerly Sig exact-form-accepts-variadic: Fold, Reduce, Repartition, WriterFunc and
         ReaderFunc compare reflect parameter lists and never look at IsVariadic, so
         func(..., xs ...e) passes wherever func(..., xs []e) is the documented form;
         calling it with a []e argument then panics inside reflect at run time ---- *)
 Theorem fold_variadic_refuted :
   exists s f out, fn_variadic f = true /\ (~ exists r, fold_schema U0 s f r) /\
-                  fold_check U0 s f = Accept out.
+                  fold_check_gen no_variadic_check U0 s f = Accept out.
 Proof.
   exists (mkS [tint; ints] 1 1), (TFunc [tint] (Some tint) [tint]), (mkS [tint; tint] 1 1).
   split; [reflexivity|]. split; [no_schema fold_schema_b_iff | vm_compute; reflexivity].
@@ -54,7 +60,7 @@ Qed.
 
 Theorem reduce_variadic_refuted :
   exists s f out, fn_variadic f = true /\ (~ exists r, reduce_schema U0 s f r) /\
-                  reduce_check U0 s f = Accept out.
+                  reduce_check_gen no_variadic_check U0 s f = Accept out.
 Proof.
   exists (mkS [tint; ints] 1 1), (TFunc [ints] (Some tint) [ints]), (mkS [tint; ints] 1 1).
   split; [reflexivity|]. split; [no_schema reduce_schema_b_iff | vm_compute; reflexivity].
@@ -62,7 +68,7 @@ Qed.
 
 Theorem repartition_variadic_refuted :
   exists s f out, fn_variadic f = true /\ (~ exists r, repartition_schema s f r) /\
-                  repartition_check s f = Accept out.
+                  repartition_check_gen no_variadic_check s f = Accept out.
 Proof.
   exists (mkS [ints] 1 2), (TFunc [tint] (Some tint) [tint]), (mkS [ints] 1 2).
   split; [reflexivity|]. split; [no_schema repartition_schema_b_iff | vm_compute; reflexivity].
@@ -70,7 +76,7 @@ Qed.
 
 Theorem writerfunc_variadic_refuted :
   exists s f out, fn_variadic f = true /\ (~ exists r, writerfunc_schema s f r) /\
-                  writerfunc_check s f = Accept out.
+                  writerfunc_check_gen no_variadic_check s f = Accept out.
 Proof.
   exists (mkS [tint] 1 1), (TFunc [tint; tint; TError] (Some tint) [TError]), (mkS [tint] 1 1).
   split; [reflexivity|]. split; [no_schema writerfunc_schema_b_iff | vm_compute; reflexivity].
@@ -79,20 +85,20 @@ Qed.
 Theorem readerfunc_variadic_refuted :
   exists f out, fn_variadic f = true /\ fn_numout f = 2%nat /\
                 (~ exists r, readerfunc_schema 1 f r) /\
-                readerfunc_check_gen true 1 f = Accept out.
+                readerfunc_check_gen no_variadic_check 1 f = Accept out.
 Proof.
   exists (TFunc [tint; tint] (Some tint) [tint; TError]), (mkS [tint] 1 1).
   split; [reflexivity|]. split; [reflexivity|].
   split; [no_schema readerfunc_schema_b_iff | vm_compute; reflexivity].
 Qed.
 
-(* ---- Sig shard-param-named-int-accepted: ReaderFunc and WriterFunc test the shard
+(* ---- REPAIRED in /repo (b77039e); formerly Sig shard-param-named-int-accepted: ReaderFunc and WriterFunc test the shard
         parameter with Kind() == reflect.Int, so `type myInt int` passes; the call
         with an int shard number then panics inside reflect at run time ---- *)
 Theorem readerfunc_shard_named_refuted :
   exists f out, fn_shard_named f = true /\ fn_variadic f = false /\ fn_numout f = 2%nat /\
                 (~ exists r, readerfunc_schema 1 f r) /\
-                readerfunc_check_gen true 1 f = Accept out.
+                readerfunc_check_gen shard_by_kind 1 f = Accept out.
 Proof.
   exists (TFunc [myint; tint; ints] None [tint; TError]), (mkS [tint] 1 1).
   repeat (split; [reflexivity|]).
@@ -101,12 +107,23 @@ Qed.
 
 Theorem writerfunc_shard_named_refuted :
   exists s f out, fn_shard_named f = true /\ fn_variadic f = false /\
-                  (~ exists r, writerfunc_schema s f r) /\ writerfunc_check s f = Accept out.
+                  (~ exists r, writerfunc_schema s f r) /\ writerfunc_check_gen shard_by_kind s f = Accept out.
 Proof.
   exists (mkS [tint] 1 1), (TFunc [myint; tint; TError; ints] None [TError]), (mkS [tint] 1 1).
   repeat (split; [reflexivity|]).
   split; [no_schema writerfunc_schema_b_iff | vm_compute; reflexivity].
 Qed.
+
+(* the witnesses of the two repaired regions are rejected by the code as it is now *)
+Theorem variadic_and_shard_witnesses_now_rejected :
+  fold_check U0 (mkS [tint; ints] 1 1) (TFunc [tint] (Some tint) [tint]) = Reject /\
+  reduce_check U0 (mkS [tint; ints] 1 1) (TFunc [ints] (Some tint) [ints]) = Reject /\
+  repartition_check (mkS [ints] 1 2) (TFunc [tint] (Some tint) [tint]) = Reject /\
+  writerfunc_check (mkS [tint] 1 1) (TFunc [tint; tint; TError] (Some tint) [TError]) = Reject /\
+  readerfunc_check 1 (TFunc [tint; tint] (Some tint) [tint; TError]) = Reject /\
+  readerfunc_check 1 (TFunc [myint; tint; ints] None [tint; TError]) = Reject /\
+  writerfunc_check (mkS [tint] 1 1) (TFunc [myint; tint; TError; ints] None [TError]) = Reject.
+Proof. vm_compute. repeat split. Qed.
 
 (* ---- Sig prefix-exceeds-columns-panics: Map, Flatmap, Fold and Scan embed the input
         Slice and override NumOut/Out only, so the result inherits the input's
